@@ -36,6 +36,9 @@ Blobs == {<<170, 187, 204, 221>>, <<1, 2, 3, 4, 5, 6, 7, 8>>, <<18, 52>>}
 StmtMenu ==
      {[s |-> "load_blob", addr |-> a, blob |-> b, mem |-> m] : a \in ExprMenu, b \in Blobs, m \in {0, 288}}
 \cup {[s |-> "load_file", addr |-> a, data |-> d, mem |-> m, via |-> v] : a \in ExprMenu, d \in {Iota(5), Iota(16)}, m \in {0, 288, 9}, v \in {"literal", "source", "extern"}}
+\cup {[s |-> "prog_pat", addr |-> a, pat |-> v] : a \in ExprMenu, v \in {1, 4660, 305419896, 2147483647}}
+\cup {[s |-> "prog_blob", addr |-> a, blob |-> b] : a \in ExprMenu, b \in {<<170, 187, 204, 221>>, <<17, 34, 51, 68, 85, 102, 119, 136>>, <<0, 34, 51, 68, 85, 102, 119, 136>>,
+                                                                          <<0, 0, 0, 0, 17, 34, 51, 68>>, <<0, 0, 0, 1>>, <<1, 0, 0, 0, 0, 0, 0, 128>>}}
 \cup {[s |-> "fill", addr |-> a, pat |-> p[1], sz |-> p[2]] : a \in ExprMenu, p \in {<<171, "b">>, <<4660, "h">>, <<305419896, "w">>}}
 \cup {[s |-> "fill_range", lo |-> a, hi |-> b, pat |-> p[1], sz |-> p[2]] : a \in ExprMenu, b \in ExprMenu, p \in {<<171, "b">>, <<305419896, "w">>}}
 \cup {[s |-> "erase_range", lo |-> a, hi |-> b, mem |-> m] : a \in ExprMenu, b \in ExprMenu, m \in {0, 8}}
